@@ -481,6 +481,19 @@ class _Walrus(ast.NodeTransformer):
         for stmt in stmts:
             stmt = self.generic_visit(stmt) if not isinstance(stmt, (ast.FunctionDef, ast.AsyncFunctionDef, ast.ClassDef)) \
                 else self.visit(stmt)
+            if isinstance(stmt, ast.While) and not stmt.orelse and any(isinstance(n, ast.NamedExpr) for n in ast.walk(stmt.test)) \
+                    and not any(isinstance(n, (ast.Lambda, ast.ListComp, ast.GeneratorExp, ast.SetComp, ast.DictComp))
+                                for n in ast.walk(stmt.test)):
+                # while (x := e) is not None: body   ==   while True: x = e; if not (x is not None): break; body
+                collect = self._Collect()
+                test = collect.visit(stmt.test)
+                guard = ast.If(test=ast.UnaryOp(op=ast.Not(), operand=test), body=[ast.Break()], orelse=[])
+                new_loop = ast.While(test=ast.Constant(value=True), body=collect.pre + [guard] + stmt.body, orelse=[])
+                for node in (guard, new_loop):
+                    ast.copy_location(node, stmt)
+                ast.fix_missing_locations(new_loop)
+                out.append(new_loop)
+                continue
             fields = self.HEADER_FIELDS.get(type(stmt))
             if fields and any(isinstance(n, ast.NamedExpr) for f in fields for v in [getattr(stmt, f, None)]
                               for item in (v if isinstance(v, list) else [v]) if item is not None for n in ast.walk(item)):
